@@ -185,9 +185,9 @@ func c03History(r *ev.Run, label string, nOps int) {
 		return
 	}
 
-	defer s.Destroy()
-
 	c := &c03Case{r: r, label: label, rng: rng, s: s, model: newMailModel(c03Boxes...)}
+
+	defer finishServer(r, s, label, func() []string { return c.log })
 
 	setup := s.MustLogin("setup")
 	for _, b := range c03Boxes[1:] {
@@ -543,9 +543,9 @@ func c03Bulk(r *ev.Run, label string, size int) {
 		return
 	}
 
-	defer s.Destroy()
-
 	c := &c03Case{r: r, label: label, rng: rng, s: s, model: newMailModel(c03Boxes...)}
+
+	defer finishServer(r, s, label, func() []string { return c.log })
 
 	conn := s.MustLogin("bulk")
 	defer conn.Close()
